@@ -94,6 +94,10 @@ Fixpoint denote_steps (fuel : nat) (steps : list step) (rows : list val) : list 
         | STopKPerKey k => d_combine_values (comb_of (CTopK k)) rows
         | SGroupValuesToList => rows
         | SJoin kind rsteps rdata => d_join kind rows (denote_steps fuel' rsteps rdata)
+        | SMapWithSide side h => map (sf h side) rows
+        | SFilterWithSide side q => filter (sp q side) rows
+        | SMapWithSideMap pairs dflt => map (side_lookup pairs dflt) rows
+        | STryMap f p => map (fun x => if pf p x then VSome (ef f x) else VNone) rows
         end in
       denote_steps fuel' rest rows'
   end
@@ -108,6 +112,7 @@ Definition elementwise_step (st : step) : bool :=
   | SMap _ | SFilter _ | SFlatMap _ | SKeyBy _ | SUnkey | SMapValues _ | SFilterValues _
   | SMapValuesW _ | SFilterValuesW _ | SMapValuesBack _ | SGroupValuesToList => true
   | SMapBatches _ (BEach _) | SMapValuesBatches _ (BEach _) | SMapBatches _ BDup => true
+  | SMapWithSide _ _ | SFilterWithSide _ _ | SMapWithSideMap _ _ | STryMap _ _ => true
   | _ => false
   end.
 Definition has_barrier (steps : list step) : bool := negb (forallb elementwise_step steps).
@@ -126,6 +131,9 @@ Definition step_type (t : tag) (st : step) : option tag :=
   | SFilterValuesW _ => if Nat.eqb t TKW then Some TKW else None
   | SMapValuesBack _ => if Nat.eqb t TKW then Some TKV else None
   | SGroupValuesToList => if Nat.eqb t TKG then Some TKV else None
+  | SMapWithSide _ _ | SMapWithSideMap _ _ => Some TU
+  | SFilterWithSide _ _ => Some t
+  | STryMap _ _ => Some TRES
   | _ => None   (* barrier steps: not part of the element-wise fragment *)
   end.
 Fixpoint well_typed (t : tag) (steps : list step) : bool :=
